@@ -198,10 +198,8 @@ func runWinner(kind string, n, round int) {
 		node.Kill(h.pid)
 	}
 	for h := range seen {
-		if _, err := node.ProcessInfo(h.pid); err == nil || !h.isDead() {
-			if !waitDead(h) {
-				r.inconclusive("watchdog: claimer did not terminate")
-			}
+		if !waitDead(h) {
+			r.inconclusive("watchdog: claimer did not terminate")
 		}
 	}
 	ov := overlapping(res)
